@@ -89,12 +89,12 @@ def alive_or_fail(ctx, db):
             alive = None
             for i, it in enumerate(tr):
                 if it.k == 'branch':
-                    ce = cond_event(tr, i)
-                    if ce is not None and ce.k == 'call' and 'operator bool' in norm(ce.get('callee') or '') and re.match(r'local:\w+|call\(std::weak_ptr::lock\)', ce.get('recv') or ''):
-                        alive = bool(it.val)
+                    nt = null_test(tr, i)
+                    if nt and re.match(r'local:\w+|call\(std::weak_ptr::lock\)', nt[0] or ''):
+                        alive = bool(nt[1])
             sub = all_indices(tr, callee_is('cocls::awaiter::subscribe'))
-            ret = [it for it in tr if it.k == 'return']
-            rv = ret[-1].get('const') if ret else None
+            rv = ret_bool(tr)
+            rv = None if rv is None else int(rv)
             if alive is True:
                 ny += 1
                 if len(sub) != 1 or rv != 1:
@@ -116,7 +116,8 @@ def alive_or_fail(ctx, db):
         bad = None; nthrow = nret = 0
         for tr in trs:
             thr = [it for it in tr if it.k == 'throw']
-            got = any(it.k == 'branch' and nullness(it) and ('_cur_val' in nullness(it)[0] or nullness(it)[0].startswith('local:v')) and nullness(it)[1] for it in tr)
+            vals = {it.get('var') for it in tr if it.k == 'decl' and (it.get('init') or '').endswith('_cur_val')}
+            got = any(it.k == 'branch' and null_test(tr, i) and ('_cur_val' in (null_test(tr, i)[0] or '') or null_test(tr, i)[0] in vals) and null_test(tr, i)[1] for i, it in enumerate(tr))
             if live(tr):
                 nret += 1
                 if not got:
